@@ -18,6 +18,9 @@ def select_specs() -> list[Spec]:
     a = "abstract.py"
     cost_attr = {(AGENT, "cost"): ("cost", X)}
     return [
+        # helpers.get_pool_results: results are collected in COMPLETION order (concurrent.futures.as_completed = the oracle permutation pool_perm), one per future
+        Spec("gen_get_pool_results", h, None, "get_pool_results", [("executors", "executors", LIST(AGENT))], LIST(AGENT),
+             attrs={"calls": {"parallel.as_completed": lambda arg: (f"(pool_perm {arg(0)[0]})", LIST(AGENT))}, "idioms": {"i.result()": ("{i}", AGENT)}}),
         Spec("gen_sort_by_cost", h, None, "sort_by_cost", [P, TT], LIST(AGENT), attrs=cost_attr),
         Spec("gen_sort_by_cost_indexes", h, None, "sort_by_cost_indexes",
              [P, TT, ("pi!", "pi", LIST(NAT))], LIST(NAT),
@@ -39,10 +42,10 @@ def select_specs() -> list[Spec]:
         Spec("gen_greedy_select_population", a, "OptimizationAbstract", "_greedy_select_population",
              [("self._population", "pop", LIST(AGENT)), ("new_population", "new_population", LIST(AGENT)),
               ("self._mode", "mode", "mode")], LIST(AGENT), fallible=True, state="self._population",
-             attrs={**cost_attr, "pool_perm": "pool_perm", "ModeSolver.SERIAL": ("SERIAL", "mode")}),
+             attrs={**cost_attr, "pool_perm": "gen_get_pool_results", "ModeSolver.SERIAL": ("SERIAL", "mode")}),
         Spec("gen_generate_agents", a, "OptimizationAbstract", "_generate_agents",
              [("n_agents", "n_agents", NAT), ("self._mode", "mode", "mode")], LIST(AGENT),
-             attrs={"pool_perm": "pool_perm", "ModeSolver.SERIAL": ("SERIAL", "mode"),
+             attrs={"pool_perm": "gen_get_pool_results", "ModeSolver.SERIAL": ("SERIAL", "mode"),
                     "idioms": {"self._init_agent()": ("(init_draw i_)", AGENT),
                                "executor.submit(self._init_agent, self._task.empty_solution())": ("(init_draw i_)", AGENT)}}),
         Spec("gen_init_population", a, "OptimizationAbstract", "_init_population",
@@ -206,6 +209,9 @@ def task_specs() -> list[Spec]:
              attrs={"calls": {"v.get_bounds": lambda arg: ("(lowers (snd v), uppers (snd v))", TUP(LIST(BS), LIST(BS))),
                               "np.array": lambda arg: arg(0)},
                     "idioms": {"lb_ if v.has_children() else [lb_]": ("{lb_}", LIST(BS)), "ub_ if v.has_children() else [ub_]": ("{ub_}", LIST(BS))}}),
+        # empty_solution: the concatenation, in declaration order, of one sample per variable (a multi-variable's sample being its children's samples)
+        Spec("gen_task_empty_solution", m, "Task", "empty_solution", [VARS], LIST(COORD),
+             attrs={"idioms": {"v.randomize() if v.has_children() else [v.randomize()]": ("(randomize_var (snd v))", LIST(COORD))}}),
         Spec("gen_task_transform_solution", m, "Task", "transform_solution", [VARS, ("x", "x", LIST(COORD))], DICT(NAT, DV), fallible=True,
              attrs={"calls": per_var, (NV, "name"): ("fst", NAT),
                     "idioms": {"v.decode(temp if v.has_children() else temp[0])": ("(decode_var (snd v) {temp})", RES(DV))}}),
@@ -334,7 +340,7 @@ def regenerate(repo: Path) -> dict:
     emit_group(repo, "GenMulti.v", "From Coq Require Import List ZArith Bool Arith.\nFrom PV Require Import Xnum Select PyLib.\nImport ListNotations.\n",
                "Variable V : Type.\nVariable valid : V -> bool.\nVariable serial : V.\n", multi_specs(), status)
     emit_group(repo, "GenTask.v", "From Coq Require Import List ZArith Bool Arith.\nFrom PV Require Import Xnum Select PyLib Argsort Vars.\nImport ListNotations.\n",
-               "", task_specs(), status)
+               "Variable randomize_var : var -> list coord.\n", task_specs(), status)
     emit_group(repo, "GenMultiVar.v", "From Coq Require Import List ZArith Bool Arith.\nFrom PV Require Import Xnum Select PyLib Argsort Vars.\nImport ListNotations.\n",
                "Variable C : Type.\nVariable L : Type.\nVariable draw_uniform : xnum -> xnum -> xnum.\nVariable draw_choice : nat -> nat.\n"
                "Variable draw_perm : nat -> list nat.\nVariable randomize1 : svar -> coord.\n", multivar_specs(), status)
